@@ -1,6 +1,7 @@
 import Proofs.Small
 import Proofs.Resolve
 import Proofs.NetworkRun
+import Proofs.HeadlinesAll
 /-! C07 — webentity network, in full (Proofs/Network*.lean): `C07_network` below, for every reachable state,
     both directions, self-links on and off, both variants. The lemmas about the aggregation itself and
     about the carried id being the resolution are kept. -/
@@ -56,5 +57,33 @@ theorem C07_network (cfg : Config) (dflt : Rule) (rules : List (Bytes × Rule)) 
       r.crawled = s.pageCount true r.src ∧ r.uncrawled = s.pageCount false r.src) ∧
     (∀ r ∈ s.networkSlow out auto, r.crawled = 0 ∧ r.uncrawled = 0 ∧ r.targets ≠ []) :=
   Traph.C07_reachable cfg dflt rules ops hrules hop hwf hok s hs out auto
+
+section EveryHistory
+open Traph State Pag Layout
+/-! ### every history (Proofs/Discipline, SinceClear, ReachableAll, HeadlinesAll) -/
+
+/-- EVERY HISTORY, `clear` and `reopen` included, no request assumed away: the only hypotheses are that byte strings cut into at least one stem (`OpWf`), rule anchors are whole LRUs (`rulesCanonical`, `Canon`) and the caller re-supplies on `reopen` the rules the index carries, as the API requires (`Disciplined`); `clear` acts as a reset (`sinceClear`).  -/
+theorem C07_all (cfg : Config) (dflt : Rule) (rules : List (Bytes × Rule)) (ops : List Op)
+    (hr : rulesCanonical rules) (hwf : ∀ op ∈ sinceClear ops, OpWf op)
+    (hd : Disciplined (State.fresh cfg dflt rules []).1 ops)
+    (s : State) (hs : s = (State.fresh cfg dflt rules []).1.run ops) (out auto : Bool) :
+    NetOk (s.network out auto) ∧ NetOk (s.networkSlow out auto) ∧
+    (∀ A B, netGet (s.network out auto) A B = s.specDir ((sinceClear ops).flatMap Op.links) out auto A B) ∧
+    (∀ A B, netGet (s.networkSlow out auto) A B = netGet (s.network out auto) A B) ∧
+    (∀ A B, netGet (s.network false auto) B A = netGet (s.network true auto) A B) ∧
+    (∀ A B, netGet (s.networkSlow false auto) B A = netGet (s.networkSlow true auto) A B) ∧
+    (∀ A B w, (∃ r ∈ s.network out auto, r.src = A ∧ (B, w) ∈ r.targets) ↔
+      0 < w ∧ w = s.specDir ((sinceClear ops).flatMap Op.links) out auto A B) ∧
+    (∀ A B w, (∃ r ∈ s.networkSlow out auto, r.src = A ∧ (B, w) ∈ r.targets) ↔
+      0 < w ∧ w = s.specDir ((sinceClear ops).flatMap Op.links) out auto A B) ∧
+    (∀ A, A ∈ (s.network out auto).map (·.src) ↔ A ≠ 0 ∧ ∃ lc ∈ s.pagesIter, s.weOf lc.1 = A) ∧
+    (∀ A, A ∈ (s.networkSlow out auto).map (·.src) ↔
+      ∃ B, 0 < s.specDir ((sinceClear ops).flatMap Op.links) out auto A B) ∧
+    (∀ r ∈ s.network out auto,
+      r.crawled = s.pageCount true r.src ∧ r.uncrawled = s.pageCount false r.src) ∧
+    (∀ r ∈ s.networkSlow out auto, r.crawled = 0 ∧ r.uncrawled = 0 ∧ r.targets ≠ []) :=
+  Traph.C07_all cfg dflt rules ops hr hwf hd s hs out auto
+
+end EveryHistory
 
 end Traph.Props
